@@ -89,6 +89,11 @@ class LiteralToken(RegexpBaseToken):
     regexp = r'\"((?:[^\"]|\"\")*)\"|(\d+)((\.)(\d+))?(e(-?\d+))?|(TRUE(\(\))?)|(FALSE(\(\))?)'
     value_range = [0, -1]
 
+    @staticmethod
+    def _int(digits: str) -> int:
+        # int() refuses texts of more than 4300 digits, leading zeros included
+        return int(digits.lstrip('-0') or '0')
+
     def __init__(self, *args, **kwargs):
         super().__init__(*args, *kwargs)
 
@@ -99,12 +104,16 @@ class LiteralToken(RegexpBaseToken):
                 real_value = float(f"{self.value[2]}.{self.value[5] or '0'}e{self.value[7] or '0'}")
                 if real_value in (float('inf'), float('-inf')):
                     raise E2PyclParserException('The number is too large')
-                if not self.value[5] and int(self.value[7]) >= 0:
-                    # as before: an integer with a non-negative exponent stays an exact integer (1e5 is 100000)
-                    real_value = int(self.value[2]) * 10 ** int(self.value[7])
+                exponent_is_negative = self.value[7].startswith('-') and self.value[7].strip('-0') != ''
+                if not self.value[5] and not exponent_is_negative:
+                    # as before: an integer with a non-negative exponent stays an exact integer (1e5 is 100000);
+                    # the value is finite, so either the mantissa is 0 (whatever the exponent) or the power is small
+                    real_value = self._int(self.value[2]) * 10 ** self._int(self.value[7]) if real_value else 0
                 real_value = repr(real_value)
             else:
-                real_value = str(int(self.value[2]))
+                if float(self.value[2]) == float('inf'):
+                    raise E2PyclParserException('The number is too large')
+                real_value = str(self._int(self.value[2]))
         elif self.value[1] or self.value[0] == '""':
             # repr(): whatever characters the text contains (quotes, backslashes, line breaks), the generated code holds
             # them as inert string data that evaluates to exactly the original text
